@@ -200,7 +200,8 @@ def battery_cases():
     (random corruption reaches these only with some probability per run)"""
     P = PARAM_PREFIX + "0"
     out = []
-    abis = ["", "extern ", 'extern "C" ', 'extern "system" ', "unsafe ", 'unsafe extern "C" ', 'unsafe extern "system" ']
+    abis = ["", "extern ", 'extern "C" ', 'extern "system" ', 'extern "C-unwind" ', 'extern "Rust" ', 'extern "sysv64" ',
+            "unsafe ", 'unsafe extern "C" ', 'unsafe extern "system" ', 'unsafe extern "C-unwind" ']
     for a in abis:
         for b in abis:
             out.append(("type", f"{a}fn({P}) -> u8", f"{b}fn(i32) -> u8", "battery:fn-abi/unsafety"))
